@@ -20,7 +20,7 @@ COMPONENTS = {
 RULE = ("plans = coin class x which count or length crosses which compact-size boundary x amounts; non-trivial iff a count "
         "or length >= 0xfd is on the wire")
 FAULT_KINDS = []
-PROBES = ["wire_tx_null_prevout", "wire_tx_witness", "wire_tx_witness_only_empty_items", "wire_tx_unspents", "wire_big_inputs", "wire_big_outputs", "wire_big_out_script", "wire_big_in_script", "wire_big_witness_item",
+PROBES = ["wire_tx_set_witness_one_shot_iterator", "wire_tx_null_prevout", "wire_tx_witness", "wire_tx_witness_only_empty_items", "wire_tx_unspents", "wire_big_inputs", "wire_big_outputs", "wire_big_out_script", "wire_big_in_script", "wire_big_witness_item",
           "wire_big_witness_count", "inputs>=253", "n=0xfc", "n=0xfd", "n=0xffff", "n=0x10000"]
 
 
@@ -42,6 +42,7 @@ def gen_plan(rng, tier, index, config=None):
                 for _k in range(r.weighted([(0, 1), (1, 4), (2, 3)]))]
         st = {"op": "wire_tx", "tx": {"version": r.pick([1, 2, 0xFFFFFFFF, r.bits(32)]), "ins": ins, "outs": outs,
                                       "locktime": r.pick([0, 499999999, 0xFFFFFFFF, r.bits(32)])}}
+        st["wit_via"] = r.pick([None, None, "list", "tuple", "iter", "gen"])
         if r.chance(0.5):
             st["unspents"] = [[r.pick([1, 546, 21 * 10**14, 21 * 10**14 + 1, (1 << 63) - 1, 1 << 63, (1 << 64) - 1, r.bits(64) or 1]),
                                r.bytes(r.pick([0, 22, 25, 34])).hex()] for _j in range(nin)]
